@@ -42,6 +42,7 @@ type Kit struct {
 	Encoding   string // "" = utf-8 default
 	Filter     string // ModeFilter: the predicate on the target ("" = n!='0')
 	NoTrailer  bool   // edi: the (optional) TRL segment is absent, the input ends inside the repeating REC loop
+	Gap        int    // csv: lines between the header row (or the start) and the first data row that the reader has to skip
 }
 
 // NewKit draws a kit for the format.
@@ -51,6 +52,9 @@ func NewKit(r *core.Rand, format string) *Kit {
 	case "csv", "csv2":
 		k.Delim = r.Pick(",", ",", "|", "\t", ";", "§")
 		k.Header = r.Bool()
+		if format == "csv" {
+			k.Gap = r.Pick2(0, 0, 0, 1, 2, 3)
+		}
 		k.ReplaceDQ = r.Chance(1, 5)
 		k.Rows = 1
 		if format == "csv2" && r.Chance(1, 2) {
@@ -331,6 +335,9 @@ func (k *Kit) fileDecl() map[string]interface{} {
 			fd["header_row_index"] = 1
 			fd["data_row_index"] = 2
 		}
+		if k.Gap > 0 {
+			fd["data_row_index"] = fd["data_row_index"].(int) + k.Gap
+		}
 		return fd
 	case "csv2":
 		var cs []interface{}
@@ -536,6 +543,9 @@ func (k *Kit) Head(r *core.Rand, o RenderOpts) []byte {
 	case "csv", "csv2":
 		if k.Header {
 			sb.WriteString(k.csvRow(r, k.colNames()) + nl)
+		}
+		for i := 0; i < k.Gap; i++ {
+			sb.WriteString("skipped line " + strconv.Itoa(i) + k.Delim + "x" + nl)
 		}
 	case "edi":
 		sb.WriteString("HDR" + k.ElemDelim + "h1" + k.SegDelim)
